@@ -206,6 +206,11 @@ class SimSolver:
             if oms:
                 return "unknown\n(error \"model generation not enabled\")\n"
             return "unknown\n(objectives\n)\n(error \"line 1 column 1: model is not available\")\n"
+        if kind == "no_model_bounds":
+            # what z3 4.8.12 prints when the time runs out after it has bounds for the objective but before it has a model
+            if oms:
+                return "unknown\n(error \"model generation not enabled\")\n"
+            return "unknown\n(objectives\n (cost (interval 0 %d))\n)\n(error \"line 1 column 1: model is not available\")\n" % entry.get("upper", 117)
         if kind == "unsat":
             if oms:
                 return "unsat\n"
